@@ -30,6 +30,11 @@ CFG = {
         "Class 'parallel priq.PriQueue': 2-4 pushers and 2-4 poppers released from a spin barrier on one queue (GOMAXPROCS >= 8, 6000 rounds / ~4e5 calls in quick), final drain at quiescence; "
         "pp_holds = clauses valid for every linearisation (no invention / duplication, no loss once a Pop invoked after all pushes said empty, real-time FIFO among equal priorities, real-time highest-priority-first); "
         "no witness search for this class, case_accept := pp_holds; a sample of 40 ordinary rounds (300 thorough) and EVERY round whose handed-out multiset differs from the accepted pushes is evaluated in Coq. "
+        "Held calls: in the sequential classes (corpus, random, dedicated 'held-calls' streams) a call that has to block is sometimes STARTED anyway - a Pop / PopAnyway on an empty open queue, an add-anyway on a level that is exactly at its capacity - and released by the ONE next call "
+        "(an add / prior add / Close, resp. a pop that takes from that level / Close); the harness then joins it under the watchdog before issuing anything else. With one held and one releasing call the results are the same under every schedule and the held call "
+        "takes effect after the releasing one, so the case lists them in that order and the ordinary sequential model / monitor judge them (lemmas p_held_*; no new model behaviour). This runs the cond.Wait branches of all pops, SyncQueue.Pop's wait and the retry branch of every Anyway add; "
+        "it is NOT C13's class (one waiter, one releaser, no choice of who wakes). IsClosed / IsCleared answering true is additionally required to mean that WaitClose / WaitClear return nil at once (mux.Q, mq.MQ); Wait* on an open queue would block and is left to C13; "
+        "IsClosed / IsCleared answering false is required to mean that WaitClose / WaitClear with an already cancelled context return context.Canceled; async.Q.Size must equal the configured size and PriQueue.WaitCh must be non-nil at construction (token protocol: C13); the six `return nil, ErrSync` statements are unreachable. "
         "Boundary item values: a quarter of the random histories of the pipe queues and mq.MQ queue nil, a typed nil pointer, the empty string, int(0) and struct{}{} (written -1..-5) like any other item - the unchanged code stores and returns them unchanged; "
         "SyncQueue gets the non-nil ones only and PriQueue none, because their API answers nil for 'closed' / 'empty' (SyncQueue.Pop / TryPop, PriQueue.Pop), so an untyped nil item is indistinguishable there by the API's own definition (and a nil IEntry panics in Less). "
         "Trusted: Coq kernel + vm_compute; the hand models (C12_Pipe.v, C12_MQ.v, C12_Sync.v, C12_Pri.v) tied by the differential check; container/list, "
